@@ -46,6 +46,42 @@ T_CUSTOM, T_HTTPAUTH_HDR = 17, 18
 T_UNKNOWN = 99
 
 
+# The dict values the harness assigns (to `proxy` and to `headers`), by identity k of the
+# value (6, k).  As `headers` values they are merged into the HTTP headers of a SOAP request
+# (suds/client.py:_SoapClient.__headers): some keys collide, in various spellings, with the
+# two headers suds sets itself.  No dict spells one header name in two ways.
+DICT_POOL = {
+    0: {},
+    1: {"http": "h.invalid:1"},
+    2: {"X-a": "1"},
+    3: {"X-a": "2", "X-b": "3"},
+    4: {"https": "g.invalid:2", "http": "g.invalid:3"},
+    5: {"Content-Type": "application/soap+xml; charset=utf-8"},
+    6: {"content-type": "application/soap+xml", "SOAPAction": '"urn:c14:x"'},
+    7: {"soapaction": '"urn:c14:y"', "X-a": "1"},
+    8: {"CONTENT-TYPE": "text/plain", "Soapaction": ""},
+}
+# header names (lower case) -> key id; 1 and 2 are the headers suds sets itself
+HEADER_KEYS = {"content-type": 1, "soapaction": 2, "http": 3, "https": 4, "x-a": 5, "x-b": 6}
+
+
+def header_value_ids():
+    """value id of every string used as a header value (0 = the value suds itself sets)"""
+    vals = sorted(set(v for d in DICT_POOL.values() for v in d.values()))
+    return dict((v, i + 1) for i, v in enumerate(vals))
+
+
+def header_pool():
+    """k -> [(key id, value id)] in the dict's own order"""
+    ids = header_value_ids()
+    out = []
+    for k, d in sorted(DICT_POOL.items()):
+        keys = [x.lower() for x in d]
+        assert len(set(keys)) == len(keys), "one spelling per header name"
+        out.append((k, [(HEADER_KEYS[x.lower()], ids[v]) for x, v in d.items()]))
+    return out
+
+
 def value_classes():
     """value tag -> class (tag 0 = None has no entry: validate() lets None
     through before looking at the classes)."""
@@ -183,6 +219,11 @@ def gen():
     out.append("Definition isa_tbl : list (N * list N) :=\n  [%s]." % ";\n   ".join(
         "(%d, %s)%%N" % (tag, "[" + "; ".join(map(str, cl)) + "]" if cl else "(@nil N)")
         for tag, cl in t["isa"]))
+    out.append("(* header names: %s; header values are interned in sorted order, 0 = the value suds sets *)" % (
+        ", ".join("%d=%s" % (v, k) for k, v in sorted(HEADER_KEYS.items(), key=lambda kv: kv[1]))))
+    out.append("Definition header_pool : list (N * list (N * N)) :=\n  [%s]." % ";\n   ".join(
+        "(%d, %s)%%N" % (k, "[" + "; ".join("(%d, %d)" % e for e in es) + "]" if es else "(@nil (N * N))")
+        for k, es in header_pool()))
     out.append("Definition cls_transport : N := %d%%N." % t["cls_transport"])
     out.append("Definition domains_distinct : bool := %s." % common.cbool(t["domains_distinct"]))
     return "\n".join(out) + "\n"
